@@ -489,7 +489,7 @@ class SeriesWorld(World):
         if how == "variant_from_until":
             a = self._around(rng, m)
             return {"op": "read", "args": {"h": h, "how": how, "a": a, "b": a + rng.randint(0, 5),
-                                           "v": rng.choice([None, 0, 1, 2, 5])}}
+                                           "v": rng.choice([None, 0] + list(range(m.nv)))}}
         if how == "missing":
             return {"op": "read", "args": {"h": h, "how": how, "dates": self._gen_dates(rng, m) if rng.random() < 0.6 else None}}
         if how == "from_until":
@@ -1073,7 +1073,7 @@ class SeriesWorld(World):
             return self._exec(step, opname, [("recv", h)], thunk)
         if how == "variant_from_until":
             v = a["v"]
-            col = v if v and v < m.nv else 0      # documented fallback: a missing or too large variant means the first
+            col = v if v else 0      # no variant given means the first; variants beyond the last are not generated
             ts = list(range(a["a"], a["b"] + 1))
             want = np.array([m.get(t)[col] for t in ts], dtype=float)
 
@@ -1360,11 +1360,7 @@ class SeriesWorld(World):
         if a.get("form") == "func":
             return self._exec(step, name + ".func", [("recv", h)], lambda: ir.redate(o.real, *args), out=step["out"][0], expect=exp)
         if how == "set_start":
-            def thunk():
-                r = o.real.set_start(new)
-                if r is not o.real:
-                    raise Violation("refine", name, "", "", "set_start is documented to return the receiver")
-            return self._exec(step, name + ".method", [("recv", h)], thunk, recv=h, expect=exp)
+            return self._exec(step, name + ".method", [("recv", h)], lambda: (o.real.set_start(new), None)[1], recv=h, expect=exp)
         return self._exec(step, name + ".method", [("recv", h)], lambda: o.real.redate(*args), recv=h, expect=exp)
 
     def _do_shape(self, step, a):
